@@ -160,6 +160,34 @@ static void child_fn(void *cookie)
 	(void)cookie;
 }
 
+/* thread creation that fails (EAGAIN: out of threads / address space): linked with -Wl,--wrap=pthread_create; the next
+   pthread_create of THIS thread fails once when the flag is set.  A failed iv_thread_create must leave nothing behind:
+   no record on the caller's list of children (the next create / the list walk / the tear-down at thread exit would
+   touch it: ASan), no leaked name or event (LSan / heap growth), no descriptor. */
+static __thread int fail_next_create;
+int __real_pthread_create(pthread_t *, const pthread_attr_t *, void *(*)(void *), void *);
+int __wrap_pthread_create(pthread_t *t, const pthread_attr_t *a, void *(*fn)(void *), void *arg)
+{
+	if (fail_next_create) {
+		fail_next_create = 0;
+		return 11;	/* EAGAIN */
+	}
+	return __real_pthread_create(t, a, fn, arg);
+}
+
+static void failing_child_create(void)
+{
+	int r;
+
+	fail_next_create = 1;
+	r = iv_thread_create("churn-nochild", child_fn, NULL);
+	if (r >= 0 || fail_next_create) {
+		printf("CHURN-CREATE-FAILURE-NOT-REPORTED r=%d\n", r);
+		fflush(stdout);
+		abort();
+	}
+}
+
 static void use_loop(struct job *j)
 {
 	if (pipe(j->pfd) < 0)
@@ -223,8 +251,15 @@ static void use_loop(struct job *j)
 		j->item->completion = work_done;
 		iv_work_pool_submit_work(j->pool, j->item);
 	}
-	if (j->use_child)
+	if (j->use_child) {
+		/* a failed creation before and after a successful one */
+		if (j->npend & 1)
+			failing_child_create();
 		iv_thread_create("churn-child", child_fn, NULL);
+		failing_child_create();
+		if (j->npend & 2)
+			iv_thread_create("churn-child2", child_fn, NULL);
+	}
 
 	if (j->npend) {
 		int i;
